@@ -381,6 +381,21 @@ def check_switches(ctx, case, part="switches"):
                 ctx.fail(part, "C09.after-separator", case, la, lb, sig="io-state")
         elif bool(a["log"]) != bool(b["log"]):
             ctx.fail(part, "C09.after-separator", case, "same handler invocations", [a["log"], b["log"]], sig="handler")
+    if case.get("tail_copy") and switches and "line" in case and results:
+        # switches in front of '--' keep their effect when the same tokens ALSO stand after it
+        base_tokens, base_res = results[0]
+        head0 = base_tokens[: base_tokens.index("--")] if "--" in base_tokens else list(base_tokens)
+        both_tokens = head0 + ["--"] + (tail or []) + list(switches)
+        try:
+            c, _ = execute(line, both_tokens, case["raise"], tree, caps)
+        except Exception as e:
+            ctx.fail(part, "C09.after-separator", case, "run returns", both_tokens, exc=e)
+            return
+        for k in ("status", "out", "err", "input_left"):
+            if c[k] != base_res[k] and not ("help" in kinds and "version" in kinds):
+                ctx.fail(part, "C09.after-separator", case, {"tokens": base_tokens, k: base_res[k]},
+                         {"tokens": both_tokens, k: c[k]}, sig="switch-also-after-separator-" + k)
+                return
     nt = len(switches) >= 2 or between or bool(case.get("tail_copy"))
     ctx.case(part, case, nt, ["c09:" + k for k in kinds] + ["c09:caps=%d%d" % (caps[0], caps[1])])
 
